@@ -270,6 +270,14 @@ func (w *encWriter) Write(p []byte) (int, error) {
 		}
 	}
 	w.log.Plain = append(w.log.Plain, p...)
+	if w.format == "pgp" {
+		// OpenPGP streams its literal data in partial-length chunks that follow the Write calls: the length of
+		// the ciphertext depends on how the plain text was chunked (probed natively: the same content written
+		// with 32 KiB and with 10 KiB writes gives different lengths). One frame byte per Write stands for that.
+		if err := w.emit([]byte{Byte("ciphertext", "")}); err != nil {
+			return 0, err
+		}
+	}
 	// ciphertext bytes are unconstrained: one fresh byte per plaintext byte
 	ct := make([]byte, len(p))
 	for i := range ct {
